@@ -130,6 +130,17 @@ var c11Faults = []fault{
 	{Target: "RelayV2TransactionSet", Name: "valid-control", Regime: "v2"},
 	{Target: "RelayV2TransactionSet", Name: "confirmed-set-old-basis", Regime: "v2"},
 	{Target: "RelayV2TransactionSet", Name: "malformed", Regime: "v2"},
+	// arithmetic-overflow values in every RPC that carries currencies: summing
+	// them panics with a string value inside go.sia.tech/core (types.Currency)
+	{Target: "RelayV2BlockOutline", Name: "overflow-miner-fee", Regime: "v2"},
+	{Target: "RelayV2BlockOutline", Name: "overflow-v1-miner-fees", Regime: "v2"},
+	{Target: "RelayV2TransactionSet", Name: "overflow-miner-fee", Regime: "v2"},
+	{Target: "RelayV2TransactionSet", Name: "overflow-outputs", Regime: "v2"},
+	{Target: "SendTransactions", Name: "overflow-miner-fee", Regime: "v2"},
+	{Target: "SendV2Blocks", Name: "overflow-payouts", Pos: true},
+	{Target: "SendV2Blocks", Name: "overflow-miner-fee", Pos: true},
+	{Target: "SendV2Blocks", Name: "overflow-outputs"},
+	{Target: "SendCheckpoint", Name: "payout-max-currency", Regime: "above"},
 	{Target: "ShareNodes", Name: "malformed-addresses"},
 	{Target: "ShareNodes", Name: "oversized"},
 	{Target: "ShareNodes", Name: "garbage"},
@@ -219,6 +230,7 @@ func runC11(r *mon.Run, replay string) {
 	r.Floor("cases_with_several_100_block_requests", 8)
 	r.Floor("hit_and_run_pairs_judged", 10)
 	r.Floor("relays_from_victim_judged", 30)
+	r.Floor("overflow_messages_delivered_total", 20)
 	r.Floor("honest_prefix_episodes_with_rolled_back_reorg", 4)
 	r.Floor("cases_with_honest_witness_on_victim_tip", 20)
 }
@@ -369,6 +381,9 @@ type scene struct {
 	action func(b *p2plab.Byz) error
 	// delivered reports whether the fault reached the victim
 	delivered func(b *p2plab.Byz) bool
+	// extraBlock: a block outside the tree whose transactions the Byzantine
+	// peer hands out on SendTransactions (overflow rows)
+	extraBlock *types.Block
 	// side: a lighter branch the victim validated and stored before its own
 	side *chainlab.Node
 	// watch: block ids whose reads the victim's manager proxy records
@@ -752,6 +767,51 @@ func buildRelayFault(sc *scene, prof chainlab.Profile) {
 		sc.processed = func(v *p2plab.Node, b *p2plab.Byz, since int64) bool {
 			return v.ACM.HandlerReads("State", tipID, since) > 0
 		}
+	case "RelayV2BlockOutline/overflow-miner-fee", "RelayV2BlockOutline/overflow-v1-miner-fees", "SendTransactions/overflow-miner-fee":
+		// a block on the victim's tip with enough work that carries a
+		// transaction whose fees overflow when they are added to the block reward
+		blk := child.Block
+		v2 := *child.Block.V2
+		blk.V2 = &v2
+		if f.Name == "overflow-v1-miner-fees" {
+			blk.Transactions = append(append([]types.Transaction(nil), child.Block.Transactions...), types.Transaction{MinerFees: []types.Currency{types.MaxCurrency, types.MaxCurrency}})
+		} else {
+			blk.V2.Transactions = append(append([]types.V2Transaction(nil), child.Block.V2.Transactions...), types.V2Transaction{MinerFee: types.MaxCurrency})
+		}
+		var o gateway.V2BlockOutline
+		if f.Target == "SendTransactions" {
+			o = gateway.OutlineBlock(blk, blk.Transactions, blk.V2Transactions()) // everything withheld
+			sc.extraBlock = &blk
+		} else {
+			o = gateway.OutlineBlock(blk, nil, nil)
+		}
+		fct := vs.NonceFactor()
+		for i := 0; o.ID(vs).CmpWork(vs.PoWTarget()) < 0; i++ {
+			o.Nonce += fct
+			if i > 1<<22 {
+				sc.skip = "cannot mine the overflow outline"
+				return
+			}
+		}
+		sc.action = func(b *p2plab.Byz) error {
+			fmt.Printf("note: C11 stream=%d relaying an outline with overflowing fees (%s/%s)\n", sc.cc.Stream, f.Target, f.Name)
+			if f.Target == "SendTransactions" {
+				err := b.Call(&gateway.RPCRelayV2BlockOutline{Block: o}, 8*time.Second)
+				b.Count("outline-with-missing-relayed", 1)
+				return err
+			}
+			return call(b, &gateway.RPCRelayV2BlockOutline{Block: o})
+		}
+	case "RelayV2TransactionSet/overflow-miner-fee", "RelayV2TransactionSet/overflow-outputs":
+		addr := t.Env.A(chainlab.Bob).Addr
+		set := []types.V2Transaction{{MinerFee: types.MaxCurrency}, {MinerFee: types.MaxCurrency}}
+		if f.Name == "overflow-outputs" {
+			set = []types.V2Transaction{{SiacoinOutputs: []types.SiacoinOutput{{Address: addr, Value: types.MaxCurrency}, {Address: addr, Value: types.MaxCurrency}}, MinerFee: types.MaxCurrency}}
+		}
+		sc.action = func(b *p2plab.Byz) error {
+			fmt.Printf("note: C11 stream=%d relaying a transaction set with overflowing amounts (%s)\n", sc.cc.Stream, f.Name)
+			return call(b, &gateway.RPCRelayV2TransactionSet{Index: sc.vTip.L.State.Index, Transactions: set})
+		}
 	case "RelayV2BlockOutline/invalid-block":
 		var bad *chainlab.Node
 		for try := 0; try < 10 && bad == nil; try++ {
@@ -1092,6 +1152,42 @@ func installHooks(sc *scene, b *p2plab.Byz) {
 					return p2plab.Reply{Obj: r, Faulted: true}
 				}
 				return p2plab.Reply{Obj: r}
+			case "overflow-payouts", "overflow-miner-fee", "overflow-outputs":
+				// a v2 block of the batch (its id covers the header only) carrying
+				// amounts that overflow when summed
+				cand := -1
+				for j := i; j < n && cand < 0; j++ {
+					if r.Blocks[j].V2 != nil {
+						cand = j
+					}
+				}
+				for j := i - 1; j >= 0 && cand < 0; j-- {
+					if r.Blocks[j].V2 != nil {
+						cand = j
+					}
+				}
+				if cand < 0 {
+					return p2plab.Reply{Obj: r}
+				}
+				blk := r.Blocks[cand]
+				id := blk.ID()
+				v2 := *blk.V2
+				blk.V2 = &v2
+				addr := t.Env.A(chainlab.Bob).Addr
+				switch f.Name {
+				case "overflow-payouts":
+					blk.MinerPayouts = []types.SiacoinOutput{{Address: blk.MinerPayouts[0].Address, Value: types.MaxCurrency}, {Address: addr, Value: types.MaxCurrency}}
+				case "overflow-miner-fee":
+					blk.V2.Transactions = append(append([]types.V2Transaction(nil), blk.V2.Transactions...), types.V2Transaction{MinerFee: types.MaxCurrency}, types.V2Transaction{MinerFee: types.MaxCurrency})
+				default:
+					blk.V2.Transactions = append(append([]types.V2Transaction(nil), blk.V2.Transactions...), types.V2Transaction{SiacoinOutputs: []types.SiacoinOutput{{Address: addr, Value: types.MaxCurrency}, {Address: addr, Value: types.MaxCurrency}}})
+				}
+				if blk.ID() != id {
+					return p2plab.Reply{Obj: r}
+				}
+				fmt.Printf("note: C11 stream=%d answering SendV2Blocks with overflowing amounts (%s, block %d of %d) regime=%s\n", sc.cc.Stream, f.Name, cand+1, n, sc.cc.Regime)
+				r.Blocks[cand] = blk
+				return p2plab.Reply{Obj: r, Faulted: true}
 			case "same-id-other-body":
 				if sc.cc.Special == "two-chunks" {
 					// only the request that starts at genesis (the chunk that is
@@ -1155,6 +1251,16 @@ func installHooks(sc *scene, b *p2plab.Byz) {
 			case "two-payouts":
 				blk := r.Block
 				blk.MinerPayouts = append(append([]types.SiacoinOutput(nil), blk.MinerPayouts...), types.SiacoinOutput{Address: t.Env.A(chainlab.Bob).Addr, Value: types.Siacoins(1)})
+				r.Block = blk
+				return p2plab.Reply{Obj: r, Faulted: true}
+			case "payout-max-currency":
+				blk := r.Block
+				blk.MinerPayouts = append([]types.SiacoinOutput(nil), blk.MinerPayouts...)
+				if len(blk.MinerPayouts) == 0 {
+					return p2plab.Reply{Obj: r}
+				}
+				blk.MinerPayouts[0].Value = types.MaxCurrency
+				fmt.Printf("note: C11 stream=%d answering SendCheckpoint with a MaxCurrency miner payout\n", sc.cc.Stream)
 				r.Block = blk
 				return p2plab.Reply{Obj: r, Faulted: true}
 			case "payouts-stripped", "payouts-duplicated", "payout-value-changed", "payout-address-changed", "transactions-stripped", "transactions-duplicated", "transactions-reordered", "v2-height-changed":
@@ -1267,6 +1373,27 @@ func installHooks(sc *scene, b *p2plab.Byz) {
 				return p2plab.Reply{Faulted: true}
 			case "confused-type":
 				return p2plab.Reply{Obj: &gateway.RPCShareNodes{Peers: []string{"1.2.3.4:5", "x"}}, Faulted: true}
+			case "overflow-miner-fee":
+				if sc.extraBlock == nil {
+					return p2plab.Reply{Obj: r}
+				}
+				want := map[types.Hash256]bool{}
+				for _, h := range r.Hashes {
+					want[h] = true
+				}
+				r.Transactions, r.V2Transactions = nil, nil
+				for _, txn := range sc.extraBlock.Transactions {
+					if want[txn.MerkleLeafHash()] {
+						r.Transactions = append(r.Transactions, txn)
+					}
+				}
+				for _, txn := range sc.extraBlock.V2Transactions() {
+					if want[txn.MerkleLeafHash()] {
+						r.V2Transactions = append(r.V2Transactions, txn)
+					}
+				}
+				fmt.Printf("note: C11 stream=%d answering SendTransactions with a transaction whose fee overflows\n", sc.cc.Stream)
+				return p2plab.Reply{Obj: r, Faulted: true}
 			case "honest-control":
 				return p2plab.Reply{Obj: r, Faulted: true}
 			}
@@ -1329,6 +1456,9 @@ func runByzCaseResult(r *mon.Run, cc c11Case) (res byzResult) {
 			Name:     name, IP: p2plab.HonestIP(slot, i), Tree: t, Tip: tip,
 			SyncInterval: time.Duration(50+rng.IntN(50)) * time.Millisecond, DiscoveryInterval: time.Duration(50+rng.IntN(50)) * time.Millisecond,
 			RPCTimeout: 2 * time.Second,
+		}
+		if name == "victim" && (strings.HasPrefix(f.Name, "overflow-") || f.Name == "payout-max-currency") {
+			o.KeepLog = true // to count the handler panics the syncer recovers
 		}
 		if name == "victim" && sc.side != nil {
 			o.PreTips = []*chainlab.Node{sc.side}
@@ -1743,6 +1873,19 @@ func runByzCaseResult(r *mon.Run, cc c11Case) (res byzResult) {
 	}
 	if cc.HangUp {
 		r.Count("hit_and_run_hang_ups_performed", b1.Counter("hangups"))
+	}
+	if delivered && (strings.HasPrefix(f.Name, "overflow-") || f.Name == "payout-max-currency") {
+		r.Count("overflow_messages_delivered:"+f.Target, 1)
+		r.Count("overflow_messages_delivered_total", 1)
+		for _, l := range v.LogTail() {
+			if strings.Contains(l, "panic in RPC handler") {
+				what := "other"
+				if strings.Contains(l, "overflow") || strings.Contains(l, "underflow") {
+					what = "overflow"
+				}
+				r.Count("handler_panics_recovered_by_the_victim:"+f.Target+":"+what, 1)
+			}
+		}
 	}
 	if f.NoBan && delivered {
 		if len(byzBans) == 0 {
